@@ -15,7 +15,10 @@ import (
 // operandKey names the operand an SSA value stands for, when it is an input of the function: a
 // parameter, a field of one, or an element of one at a constant index ("" otherwise). Interface
 // conversions and type assertions keep the operand.
-func operandKey(v ssa.Value) string {
+func operandKey(v ssa.Value) string { return operandKeyX(v, false) }
+
+// operandKeyX: with calls, the result of a call also names an operand (the typed form of a child).
+func operandKeyX(v ssa.Value, calls bool) string {
 	for i := 0; i < 10; i++ {
 		switch x := v.(type) {
 		case *ssa.MakeInterface:
@@ -29,11 +32,18 @@ func operandKey(v ssa.Value) string {
 		case *ssa.Extract:
 			if ta, ok := x.Tuple.(*ssa.TypeAssert); ok && x.Index == 0 {
 				v = ta.X
+			} else if k, ok := x.Tuple.(*ssa.Call); ok && x.Index == 0 && calls {
+				return "param:result of " + k.Name()
 			} else {
 				return ""
 			}
 		case *ssa.Parameter:
 			return "param:" + x.Name()
+		case *ssa.Call:
+			if !calls {
+				return ""
+			}
+			return "param:result of " + x.Name() // an operand obtained from a call (the typed form of a child)
 		case *ssa.UnOp:
 			if x.Op.String() != "*" {
 				return ""
@@ -44,7 +54,7 @@ func operandKey(v ssa.Value) string {
 				if !ok || k.Value == nil || k.Value.Kind() != constant.Int {
 					return ""
 				}
-				base := operandKey(a.X)
+				base := operandKeyX(a.X, calls)
 				if base == "" {
 					return ""
 				}
@@ -222,6 +232,132 @@ func ruleOperandNotFolded(c *Ctx, rule string) {
 		c.Check(len(missing) == 0, rule, FnName(fn)+": constant answer next to a node holding "+strings.Join(keysOf(kept), ", "), p.Pos(consts[0].Pos()),
 			"every operand the built node holds was asked IsConst() before the constant answer",
 			fmt.Sprintf("answers a constant bool node on one path and a node holding %s on another without asking %s whether it is constant: an operand that is a symbol disappears from the typed tree, and the public-symbol validator, which walks the typed tree, never sees it", strings.Join(keysOf(kept), ", "), strings.Join(missing, ", ")))
+	}
+	// (b) a function that is handed two or more operands and answers one of them in place of a node holding them:
+	// on the path to that answer every operand it leaves out was found to be constant (IsConst() answered true,
+	// or an assertion to a constant node type held)
+	for _, fn := range c.prodFuncs("ast") {
+		if fn.Signature.Results().Len() == 0 || !types.Implements(fn.Signature.Results().At(0).Type(), nodeIface) {
+			continue
+		}
+		cands := map[string]bool{}
+		for _, prm := range fn.Params {
+			if _, isIface := prm.Type().Underlying().(*types.Interface); isIface && types.Implements(prm.Type(), nodeIface) {
+				cands["param:"+prm.Name()] = true
+			}
+		}
+		evidence := map[string][]ssa.Value{}       // operand -> bools that say "is constant" when true
+		asserted := map[string][]*ssa.BasicBlock{} // operand -> blocks after an unconditional assertion to a constant node
+		for _, b := range fn.Blocks {
+			for _, in := range b.Instrs {
+				switch x := in.(type) {
+				case *ssa.Store:
+					if fa, ok := x.Addr.(*ssa.FieldAddr); ok {
+						if al, isAl := fa.X.(*ssa.Alloc); isAl && !types.Identical(deref(al.Type()), constT) && types.Implements(x.Val.Type(), nodeIface) {
+							if k := operandKeyX(x.Val, true); k != "" {
+								cands[k] = true
+							}
+						}
+					}
+				case *ssa.TypeAssert:
+					if nm := namedOf(x.AssertedType); nm != nil && strings.HasSuffix(nm.Obj().Name(), "ConstNode") {
+						if k := operandKeyX(x.X, true); k != "" {
+							if !x.CommaOk {
+								asserted[k] = append(asserted[k], b)
+							} else if refs := x.Referrers(); refs != nil {
+								for _, r := range *refs {
+									if ex, isEx := r.(*ssa.Extract); isEx && ex.Index == 1 {
+										evidence[k] = append(evidence[k], ex)
+									}
+								}
+							}
+						}
+					}
+				}
+				if call, ok := in.(ssa.CallInstruction); ok {
+					cc := call.Common()
+					if cv, isVal := call.(*ssa.Call); isVal && cc.IsInvoke() && cc.Method.Name() == "IsConst" {
+						if k := operandKeyX(cc.Value, true); k != "" {
+							evidence[k] = append(evidence[k], cv)
+						}
+					}
+					// operands handed to a constructor of the package that answers a node
+					if sc := cc.StaticCallee(); sc != nil && sc.Pkg == fn.Pkg && sc.Signature.Recv() == nil && sc.Signature.Results().Len() >= 1 {
+						if _, isPtr := sc.Signature.Results().At(0).Type().Underlying().(*types.Pointer); isPtr && types.Implements(sc.Signature.Results().At(0).Type(), nodeIface) {
+							for _, a := range cc.Args {
+								if types.Implements(a.Type(), nodeIface) {
+									if k := operandKeyX(a, true); k != "" {
+										cands[k] = true
+									}
+								}
+							}
+						}
+					}
+				}
+			}
+		}
+		if len(cands) < 2 {
+			continue
+		}
+		fi := ComputeFacts(fn)
+		knownConst := func(o string, blk *ssa.BasicBlock) bool {
+			for _, e := range evidence[o] {
+				if fi.Holds(blk, Fact{"true", e, true}) {
+					return true
+				}
+			}
+			for _, ab := range asserted[o] {
+				if ab == blk || ab.Dominates(blk) {
+					return true
+				}
+			}
+			return false
+		}
+		type rv struct {
+			v   ssa.Value
+			blk *ssa.BasicBlock
+		}
+		for _, r := range returnsOf(fn) {
+			if len(r.Results) == 0 {
+				continue
+			}
+			var vals []rv
+			var flat func(v ssa.Value, blk *ssa.BasicBlock, d int)
+			flat = func(v ssa.Value, blk *ssa.BasicBlock, d int) {
+				if phi, isPhi := v.(*ssa.Phi); isPhi && d < 4 {
+					for i, e := range phi.Edges {
+						flat(e, phi.Block().Preds[i], d+1)
+					}
+					return
+				}
+				vals = append(vals, rv{v, blk})
+			}
+			flat(r.Results[0], r.Block(), 0)
+			for _, x := range vals {
+				k := operandKeyX(x.v, true)
+				if k == "" || !cands[k] {
+					continue
+				}
+				if _, isAlloc := x.v.(*ssa.Alloc); isAlloc {
+					continue
+				}
+				var missing []string
+				for o := range cands {
+					if o != k && !knownConst(o, x.blk) {
+						missing = append(missing, strings.TrimPrefix(o, "param:"))
+					}
+				}
+				sortStrings(missing)
+				n++
+				if len(missing) > 0 {
+					fired++
+				}
+				c.Analysed(FnName(fn))
+				c.Check(len(missing) == 0, rule, FnName(fn)+": answers operand "+strings.TrimPrefix(k, "param:")+" itself", p.Pos(r.Pos()),
+					"every operand left out is known to be constant on that path",
+					"answers the operand "+strings.TrimPrefix(k, "param:")+" in place of a node holding all operands, leaving out "+strings.Join(missing, ", ")+" without having found it constant on that path: a symbol in the operand left out disappears from the typed tree, and the public-symbol validator never sees it (`false and secret = \"x\"` is accepted)")
+			}
+		}
 	}
 	if fired == 0 {
 		c.OK(rule, "ast: constant answers of node builders", "-", fmt.Sprintf("%d functions answer a constant next to a node holding an operand; none without asking the operand", n))
